@@ -1,7 +1,37 @@
-(* C03 — after an update no configured occurrence is left stale. (theorems are added as they are proved) *)
-From Coq Require Import List NArith.
-From BV Require Import Lib.PyStr Model.Rewrite.
+(* C03 -- after an update no configured occurrence is left stale: every match that iter_matches yields is
+   replaced by its pattern's rendering, and rewrite_lines succeeds exactly when every pattern was found.
+   Statements only; the proofs are in Proofs/RewriteFacts.v. *)
+From Coq Require Import List Bool NArith Arith.
+From BV Require Import Lib.PyStr Model.Rewrite Proofs.RewriteFacts.
 Import ListNotations.
-Example C03_smoke : detect_line_sep [97;13;10;98]%N = [13;10]%N.
-Proof. vm_compute. reflexivity. Qed.
-Print Assumptions C03_smoke.
+
+Theorem C03_iter_matches_separated : forall lines pats, ForallOrdPairs separated (iter_matches lines pats).
+Proof. exact iter_matches_separated. Qed.
+Print Assumptions C03_iter_matches_separated.
+
+Theorem C03_iter_matches_in_line : forall lines pats m, (forall p, In p pats -> span_ok p) -> In m (iter_matches lines pats) ->
+   (pm_line m < length lines)%nat /\ (pm_end m <= length (nth (pm_line m) lines []))%nat /\ In (pm_pat m) pats /\
+   cp_search (pm_pat m) (nth (pm_line m) lines []) = Some (pm_start m, pm_end m).
+Proof. exact iter_matches_in_line. Qed.
+Print Assumptions C03_iter_matches_in_line.
+
+Theorem C03_apply_matches_spec : forall ms lines, ForallOrdPairs separated ms ->
+  (forall m, In m ms -> (pm_start m <= pm_end m)%nat /\ (pm_line m < length lines)%nat /\
+                        (pm_end m <= length (nth (pm_line m) lines []))%nat) ->
+  length (apply_matches ms lines) = length lines /\
+  forall i, (i < length lines)%nat ->
+    nth i (apply_matches ms lines) [] = replace_spans (nth i lines []) 0 (spans_on ms i).
+Proof. exact apply_matches_spec. Qed.
+Print Assumptions C03_apply_matches_spec.
+
+Theorem C03_rewrite_lines_ok_iff : forall pats lines,
+  (exists nl, rewrite_lines pats lines = RwOk nl) <-> forallb (pat_found (iter_matches lines pats)) pats = true.
+Proof. exact rewrite_lines_ok_iff. Qed.
+Print Assumptions C03_rewrite_lines_ok_iff.
+
+Example C03_two_patterns_one_line :
+  rewrite_lines [ex_pA; ex_pB] [ex_line] = RwOk [ex_new_line] /\
+  rewrite_lines [ex_pB; ex_pA] [ex_line] = RwOk [ex_new_line] /\
+  str_in (cp_repl ex_pA) ex_new_line = true /\ str_in (cp_repl ex_pB) ex_new_line = true.
+Proof. exact two_patterns_one_line. Qed.
+Print Assumptions C03_two_patterns_one_line.
